@@ -80,6 +80,12 @@ def run_routing(ctx):
     F = ctx.facts()
     b = ctx.need_body(E + "process_batch_sync", rule="requeue")
     pushes = [(bb, t) for bb, t in b.calls() if t["callee"].endswith("VecDeque::<T, A>::push_back") and b.in_loop(bb)]
+    # the rename-skipped flag is found by role: the bool handed to process_stream_sync as its last argument
+    pss = [t for _, t in b.calls() if (t["inst"] or t["callee"]) == E + "process_stream_sync"]
+    if not pss or not pss[0]["atys"] or pss[0]["atys"][-1] != "bool":
+        ctx.anchor_lost("requeue", "process_batch_sync: call of process_stream_sync(.., skip_rename: bool) not found")
+        return
+    flag = b.desc(pss[0]["args"][-1])
     n = 0
     for bb, t in pushes:
         o = Slicer(b).origins([t["args"][1]])
@@ -87,16 +93,16 @@ def run_routing(ctx):
             continue
         n += 1
         gs = b.guards_of(bb)
-        ok = any(g.get("text", "").replace("Not(", "").rstrip(")") == "skip_rename" and ((g["taken"] == "false") != g.get("text", "").startswith("Not(")) for g in gs)
+        ok = any(g.get("text", "").replace("Not(", "").rstrip(")") == flag and ((g["taken"] == "false") != g.get("text", "").startswith("Not(")) for g in gs)
         if ok:
             ctx.ok("requeue", "process_batch_sync#%d" % n, "queued only when the outputs were renamed", site=t["sp"])
         else:
             ctx.violation("requeue", "process_batch_sync#%d" % n, "process_batch_sync queues a stream's outputs for routing even when their rename was skipped: they keep the input's event type and are routed back to every stream consuming it (guards: %s)" % [g.get("text", "")[:40] for g in gs][-4:], site=t["sp"])
     ctx.floor("requeue", "output requeue sites in process_batch_sync", n, 1)
     # skip_rename depends on the stream's operations (Process outputs are outputs)
-    ls = b.locals_named("skip_rename")
+    ls = b.locals_named(flag)
     if not ls:
-        ctx.anchor_lost("requeue", "local skip_rename not found in process_batch_sync")
+        ctx.anchor_lost("requeue", "the rename-skipped flag `%s` is not a plain local of process_batch_sync (unrecognised shape)" % flag)
     else:
         o = Slicer(b).origins(ls)
         if any(f[1] == "operations" for f in o.fields):
